@@ -70,7 +70,9 @@ Justified(c, s, p, t) ==
 
 (* ---- one event of a step ------------------------------------------------------------------ *)
 Ev(c, s, e) ==
-  CASE e.k = "att" ->
+  CASE e.k \in {"att", "want", "rel"} /\ e.for \notin Procs(c) ->
+         Fail(s, "conserve", "the delegate was called with a context that belongs to no caller of the scenario")
+    [] e.k = "att" ->
          LET room == Held(c, s) < c.limit IN
          IF e.ok # room
          THEN Fail(s, "gate", IF e.ok THEN "delegate granted with no capacity free" ELSE "delegate refused with capacity free")
